@@ -10,6 +10,10 @@ import scipy.sparse as sp
 from .poly import Poly, frac, z3mod
 
 
+class MalformedProgram(Exception):
+    """The arrays of the real standard form do not fit together (a defect of the code under test, not of the harness)."""
+
+
 class CProg:
     def __init__(self, formula, name='v'):
         lin = sp.csr_matrix(formula.linear)
@@ -34,7 +38,8 @@ class CProg:
         self.lmi = list(getattr(formula, 'lmi', []))
         self.pcones = []     # abstracted IPCone calls: (left form, [right forms], beta)
         if len(self.obj) != self.n or len(self.lb) != self.n or len(self.vtype) != self.n:
-            raise ValueError('inconsistent program dimensions')
+            raise MalformedProgram('the standard form has %d columns but obj/lb/vtype have %d/%d/%d entries'
+                                   % (self.n, len(self.obj), len(self.lb), len(self.vtype)))
 
     # ---- z3 encoding
     def z3vars(self, prefix=None, relax=False):
